@@ -250,6 +250,246 @@ pub proof fn lemma_semilattice_from_value<E, S, X>(
     assert(summary(zero, plus, single, seq![v]) == plus(zero, single(v)));
 }
 
+
+// ---------------------------------------------------------------------------------------------
+// A-REALIZABLE, discharged: facts about central sums of real multisets that are not inductive in
+// the summary.  sum_pow(s, c, p) = sum_i (s[i] - c)^p over the reals.
+// ---------------------------------------------------------------------------------------------
+pub open spec fn rpow(x: real, p: nat) -> real
+    decreases p,
+{
+    if p == 0 { 1real } else { x * rpow(x, (p - 1) as nat) }
+}
+
+pub open spec fn sum_pow(s: Seq<real>, c: real, p: nat) -> real
+    decreases s.len(),
+{
+    if s.len() == 0 { 0real } else { sum_pow(s.drop_last(), c, p) + rpow(s.last() - c, p) }
+}
+
+pub proof fn lemma_real_sq(x: real)
+    ensures
+        rpow(x, 2) == x * x,
+        rpow(x, 4) == (x * x) * (x * x),
+        rpow(x, 3) == x * (x * x),
+        x * x >= 0real,
+        (x * x) * (x * x) >= 0real,
+        (x * x == 0real) ==> x == 0real,
+        ((x * x) * (x * x) == 0real) ==> x == 0real,
+{
+    reveal_with_fuel(rpow, 5);
+    assert(x * 1real == x);
+    assert(x * (x * (x * x)) == (x * x) * (x * x)) by(nonlinear_arith);
+    assert(x * x >= 0real) by(nonlinear_arith);
+    assert((x * x) * (x * x) >= 0real) by(nonlinear_arith);
+    assert((x * x == 0real) ==> x == 0real) by(nonlinear_arith);
+    assert(((x * x) * (x * x) == 0real) ==> x == 0real) by(nonlinear_arith);
+}
+
+// M2 >= 0 and M4 >= 0
+pub proof fn lemma_realizable_even_nonneg(s: Seq<real>, c: real)
+    ensures
+        sum_pow(s, c, 2) >= 0real,
+        sum_pow(s, c, 4) >= 0real,
+    decreases s.len(),
+{
+    if s.len() > 0 {
+        lemma_realizable_even_nonneg(s.drop_last(), c);
+        lemma_real_sq(s.last() - c);
+    }
+}
+
+// M2 = 0  ==>  every observation equals c
+pub proof fn lemma_realizable_zero_spread(s: Seq<real>, c: real)
+    requires
+        sum_pow(s, c, 2) == 0real,
+    ensures
+        forall|i: int| 0 <= i < s.len() ==> s[i] == c,
+    decreases s.len(),
+{
+    if s.len() > 0 {
+        lemma_realizable_even_nonneg(s.drop_last(), c);
+        lemma_real_sq(s.last() - c);
+        assert(sum_pow(s.drop_last(), c, 2) == 0real);
+        assert(s.last() == c);
+        lemma_realizable_zero_spread(s.drop_last(), c);
+        assert forall|i: int| 0 <= i < s.len() implies s[i] == c by {
+            if i < s.len() - 1 {
+                assert(s.drop_last()[i] == s[i]);
+            }
+        }
+    }
+}
+
+// every observation equals c  ==>  M3 = M4 = 0 (and M2 = 0)
+pub proof fn lemma_realizable_constant(s: Seq<real>, c: real)
+    requires
+        forall|i: int| 0 <= i < s.len() ==> s[i] == c,
+    ensures
+        sum_pow(s, c, 2) == 0real,
+        sum_pow(s, c, 3) == 0real,
+        sum_pow(s, c, 4) == 0real,
+    decreases s.len(),
+{
+    if s.len() > 0 {
+        assert forall|i: int| 0 <= i < s.drop_last().len() implies s.drop_last()[i] == c by {
+            assert(s.drop_last()[i] == s[i]);
+        }
+        lemma_realizable_constant(s.drop_last(), c);
+        lemma_real_sq(s.last() - c);
+        assert(s.last() - c == 0real);
+    }
+}
+
+// M2 = 0 ==> M3 = 0 and M4 = 0;   M2 > 0 ==> M4 > 0
+pub proof fn lemma_realizable(s: Seq<real>, c: real)
+    ensures
+        sum_pow(s, c, 2) >= 0real,
+        sum_pow(s, c, 2) == 0real ==> sum_pow(s, c, 3) == 0real && sum_pow(s, c, 4) == 0real,
+        sum_pow(s, c, 2) > 0real ==> sum_pow(s, c, 4) > 0real,
+{
+    lemma_realizable_even_nonneg(s, c);
+    if sum_pow(s, c, 2) == 0real {
+        lemma_realizable_zero_spread(s, c);
+        lemma_realizable_constant(s, c);
+    }
+    if sum_pow(s, c, 4) == 0real {
+        lemma_realizable_zero_spread4(s, c);
+        lemma_realizable_constant(s, c);
+    }
+}
+
+pub proof fn lemma_realizable_zero_spread4(s: Seq<real>, c: real)
+    requires
+        sum_pow(s, c, 4) == 0real,
+    ensures
+        forall|i: int| 0 <= i < s.len() ==> s[i] == c,
+    decreases s.len(),
+{
+    if s.len() > 0 {
+        lemma_realizable_even_nonneg(s.drop_last(), c);
+        lemma_real_sq(s.last() - c);
+        assert(sum_pow(s.drop_last(), c, 4) == 0real);
+        assert(s.last() == c);
+        lemma_realizable_zero_spread4(s.drop_last(), c);
+        assert forall|i: int| 0 <= i < s.len() implies s[i] == c by {
+            if i < s.len() - 1 {
+                assert(s.drop_last()[i] == s[i]);
+            }
+        }
+    }
+}
+
+// Bridge between central sums and power sums (for every centre c, in particular c = mean):
+//   sum (x-c)^2 = S2 - 2c S1 + c^2 n,   sum (x-c)^3 = S3 - 3c S2 + 3c^2 S1 - c^3 n,
+//   sum (x-c)^4 = S4 - 4c S3 + 6c^2 S2 - 4c^3 S1 + c^4 n
+// so the M_p(P) terms of the RS contracts (written over power sums) ARE the central sums the
+// realizability lemmas talk about.
+pub open spec fn psum(s: Seq<real>, j: nat) -> real
+    decreases s.len(),
+{
+    if s.len() == 0 { 0real } else { psum(s.drop_last(), j) + rpow(s.last(), j) }
+}
+
+pub proof fn lemma_bridge(s: Seq<real>, c: real)
+    ensures
+        sum_pow(s, c, 2) == psum(s, 2) - 2real * c * psum(s, 1) + c * c * psum(s, 0),
+        sum_pow(s, c, 3) == psum(s, 3) - 3real * c * psum(s, 2) + 3real * c * c * psum(s, 1) - c * c * c * psum(s, 0),
+        sum_pow(s, c, 4) == psum(s, 4) - 4real * c * psum(s, 3) + 6real * c * c * psum(s, 2) - 4real * c * c * c * psum(s, 1)
+            + c * c * c * c * psum(s, 0),
+    decreases s.len(),
+{
+    if s.len() > 0 {
+        lemma_bridge(s.drop_last(), c);
+        let x = s.last();
+        reveal_with_fuel(rpow, 5);
+        assert(rpow(x, 0) == 1real && rpow(x, 1) == x && rpow(x, 2) == x * x && rpow(x, 3) == x * (x * x)
+            && rpow(x, 4) == x * (x * (x * x))) by {
+            assert(x * 1real == x);
+        }
+        let d = x - c;
+        assert(rpow(d, 2) == d * d && rpow(d, 3) == d * (d * d) && rpow(d, 4) == d * (d * (d * d))) by {
+            assert(d * 1real == d);
+        }
+        assert(d * d == x * x - 2real * c * x + c * c) by(nonlinear_arith) requires d == x - c;
+        assert(d * (d * d) == x * (x * x) - 3real * c * (x * x) + 3real * c * c * x - c * c * c) by(nonlinear_arith) requires d == x - c;
+        assert(d * (d * (d * d)) == x * (x * (x * x)) - 4real * c * (x * (x * x)) + 6real * c * c * (x * x) - 4real * c * c * c * x
+            + c * c * c * c) by(nonlinear_arith) requires d == x - c;
+        let (p0, p1, p2, p3, p4) = (psum(s.drop_last(), 0), psum(s.drop_last(), 1), psum(s.drop_last(), 2), psum(s.drop_last(), 3), psum(s.drop_last(), 4));
+        assert(c * c * (p0 + 1real) == c * c * p0 + c * c) by(nonlinear_arith);
+        assert(2real * c * (p1 + x) == 2real * c * p1 + 2real * c * x) by(nonlinear_arith);
+        assert(3real * c * (p2 + x * x) == 3real * c * p2 + 3real * c * (x * x)) by(nonlinear_arith);
+        assert(3real * c * c * (p1 + x) == 3real * c * c * p1 + 3real * c * c * x) by(nonlinear_arith);
+        assert(c * c * c * (p0 + 1real) == c * c * c * p0 + c * c * c) by(nonlinear_arith);
+        assert(4real * c * (p3 + x * (x * x)) == 4real * c * p3 + 4real * c * (x * (x * x))) by(nonlinear_arith);
+        assert(6real * c * c * (p2 + x * x) == 6real * c * c * p2 + 6real * c * c * (x * x)) by(nonlinear_arith);
+        assert(4real * c * c * c * (p1 + x) == 4real * c * c * c * p1 + 4real * c * c * c * x) by(nonlinear_arith);
+        assert(c * c * c * c * (p0 + 1real) == c * c * c * c * p0 + c * c * c * c) by(nonlinear_arith);
+    }
+}
+
+// ---------------------------------------------------------------------------------------------
+// Stage-wise contracts compose (C05 / C15): if two step functions are sequential compositions of
+// stages that agree on well-formed states and preserve well-formedness, the steps agree and the
+// whole stream processing agrees, by induction over the stream.
+// ---------------------------------------------------------------------------------------------
+pub open spec fn run_stream<St, X>(step: spec_fn(St, X) -> St, init: St, s: Seq<X>) -> St
+    decreases s.len(),
+{
+    if s.len() == 0 { init } else { step(run_stream(step, init, s.drop_last()), s.last()) }
+}
+
+pub proof fn lemma_stagewise_stream<St, X>(
+    wf: spec_fn(St) -> bool,
+    code: spec_fn(St, X) -> St, refer: spec_fn(St, X) -> St,
+    init: St, s: Seq<X>,
+)
+    requires
+        wf(init),
+        forall|st: St, x: X| wf(st) ==> #[trigger] code(st, x) == refer(st, x),
+        forall|st: St, x: X| wf(st) ==> #[trigger] wf(code(st, x)),
+    ensures
+        run_stream(code, init, s) == run_stream(refer, init, s),
+        wf(run_stream(code, init, s)),
+    decreases s.len(),
+{
+    if s.len() > 0 {
+        lemma_stagewise_stream(wf, code, refer, init, s.drop_last());
+        let st = run_stream(code, init, s.drop_last());
+        assert(code(st, s.last()) == refer(st, s.last()));
+        assert(wf(code(st, s.last())));
+    }
+}
+
+// one step as a composition of four stages (prologue; adjust 1; adjust 2; adjust 3)
+pub proof fn lemma_stagewise_step<St, X>(
+    wf0: spec_fn(St) -> bool, wf1: spec_fn(St) -> bool,
+    p_c: spec_fn(St, X) -> St, p_r: spec_fn(St, X) -> St,
+    a1_c: spec_fn(St) -> St, a1_r: spec_fn(St) -> St,
+    a2_c: spec_fn(St) -> St, a2_r: spec_fn(St) -> St,
+    a3_c: spec_fn(St) -> St, a3_r: spec_fn(St) -> St,
+    st: St, x: X,
+)
+    requires
+        wf0(st),
+        forall|t: St, y: X| wf0(t) ==> #[trigger] p_c(t, y) == p_r(t, y) && wf1(p_c(t, y)),
+        forall|t: St| wf1(t) ==> #[trigger] a1_c(t) == a1_r(t) && wf1(a1_c(t)),
+        forall|t: St| wf1(t) ==> #[trigger] a2_c(t) == a2_r(t) && wf1(a2_c(t)),
+        forall|t: St| wf1(t) ==> #[trigger] a3_c(t) == a3_r(t) && wf1(a3_c(t)),
+    ensures
+        a3_c(a2_c(a1_c(p_c(st, x)))) == a3_r(a2_r(a1_r(p_r(st, x)))),
+        wf1(a3_c(a2_c(a1_c(p_c(st, x))))),
+{
+    let s1 = p_c(st, x);
+    assert(s1 == p_r(st, x) && wf1(s1));
+    let s2 = a1_c(s1);
+    assert(s2 == a1_r(s1) && wf1(s2));
+    let s3 = a2_c(s2);
+    assert(s3 == a2_r(s2) && wf1(s3));
+    let s4 = a3_c(s3);
+    assert(s4 == a3_r(s3) && wf1(s4));
+}
+
 } // verus!
 
 fn main() {}
